@@ -756,6 +756,21 @@ def set_norm(t):
         inner = set_norm(("call", "Option::is_some", t[2]))
         if inner[:2] == ("op", "Not"):
             return inner[2]
+    if t[:2] in (("call", "Iterator::any"), ("call", "Iterator::all")) and len(t[2]) == 2 and isinstance(t[2][1], tuple) and t[2][1][:1] == ("closure",) and len(t[2][1][1]) == 1:
+        # `a.iter().any(|x| !b.contains(x))` is `!a.is_subset(b)`; `a.iter().all(|x| b.contains(x))` is `a.is_subset(b)`
+        a_, clo = t[2]
+        body, neg = clo[2], False
+        if isinstance(body, tuple) and body[:2] == ("op", "Not"):
+            body, neg = body[2], True
+        if isinstance(body, tuple) and body[:1] == ("call",) and str(body[1]).endswith("::contains") and len(body[2]) == 2 and body[2][1] == ("param", clo[1][0]) \
+                and not any(x == ("param", clo[1][0]) for x in sym.subterms(body[2][0])):
+            if t[1] == "Iterator::any" and neg:
+                return ("op", "Not", ("call", "IndexSet::is_subset", (a_, body[2][0])))
+            if t[1] == "Iterator::all" and not neg:
+                return ("call", "IndexSet::is_subset", (a_, body[2][0]))
+    if t[:2] == ("op", "Not") and isinstance(t[2], tuple) and t[2][:1] == ("call",) and str(t[2][1]).endswith(("Set::insert",)) and len(t[2][2]) == 2:
+        # `!set.insert(x)` holds exactly when x was in the set already (and leaves it there)
+        return ("call", "IndexSet::contains", t[2][2])
     if t[:1] == ("upd",) and len(t) == 4 and t[2] == "append":
         return ("upd", t[1], "extend", t[3])
     if t[:1] == ("call",) and t[1].endswith("::is_subset") and t[1] != "IndexSet::is_subset":
